@@ -654,6 +654,7 @@ func (s *Session) callerEnv(st *State) *Env {
 		}
 		// local variables (Allocs by source name, in declaration order)
 		n := 0
+		undefinedLocal := false
 		for _, b := range s.fn.Blocks {
 			for _, in := range b.Instrs {
 				a, ok := in.(*ssa.Alloc)
@@ -667,7 +668,8 @@ func (s *Session) callerEnv(st *State) *Env {
 				t := a.Type().Underlying().(*types.Pointer).Elem()
 				ptr, defined := fr.regs[a]
 				if !defined {
-					fatalf("%s: specification refers to %s, which is not defined on this path", s.name, name)
+					undefinedLocal = true
+					continue
 				}
 				switch p := ptr.(type) {
 				case *CellPtr:
@@ -701,6 +703,9 @@ func (s *Session) callerEnv(st *State) *Env {
 					return EVal{T: p.Fr.cells[p.A], Ty: t}, true
 				}
 			}
+		}
+		if undefinedLocal {
+			fatalf("%s: specification refers to %s, which is not defined on this path", s.name, name)
 		}
 		return EVal{}, false
 	}
